@@ -70,11 +70,23 @@ def plan(rng, data, n_faults, kinds, has_old=True, aligned=None):
                 if spans:
                     x, y = rng.choice(spans)
                     off = rng.randrange(x, max(x + 1, y))
+                    if "subst" in kinds and rng.random() < 0.5:
+                        # the whole scalar replaced (a lost line and another field's text in
+                        # one record)
+                        while x < y and data[y - 1:y] in (b",", b" ", b"\r"):
+                            y -= 1
+                        if y - x >= 2 and data[x:x + 1] in (b'"', b"'") and data[y - 1:y] == data[x:x + 1]:
+                            x, y = x + 1, y - 1
+                        out.append({"kind": "subst", "off": x, "end": y,
+                                    "text": rng.choice(SUBST_TEXTS)})
+                        continue
                 else:
                     off = rng.randrange(a, b)
                 out.append({"kind": "bitflip", "off": off, "bit": rng.randrange(8)})
-        # drops are applied top down: later line numbers shift; keep them in descending order
-        out.sort(key=lambda f: -f.get("l1", -1))
+        # byte-addressed faults first (their offsets refer to the undamaged text), then the drops
+        # top down: later line numbers shift, so they go in descending order.  Several substituted
+        # scalars: from the back, so that earlier offsets stay valid.
+        out.sort(key=lambda f: (f["kind"] == "drop", -f.get("l1", -1), -f.get("off", 0)))
         return out
     for _ in range(n_faults):
         kind = rng.choice(kinds)
